@@ -246,7 +246,7 @@ func c09JudgeInner(c c09Case, res opResult) string {
 		case (c.op == "ReduceMax" || c.op == "ReduceMin") && reduceNoAxesForm(c) && (c.keepdims || c.noAttrs) && kfAccept("KF-C09-reduce-no-axes"):
 			return ""
 		case (c.op == "ReduceMax" || c.op == "ReduceMin") && !isFloat(c.x.Dtype()) && c.x.Dtype() != tensor.Int32 && c.x.Dtype() != tensor.Int64:
-			ev.Refused("C09-" + c.op) // element types beyond the common ones: computed or refused
+			ev.Refused("C09-" + c.op + " " + c.x.Dtype().String() + ": " + refusalReason(res.err)) // element types beyond the common ones: computed or refused
 			return ""
 		}
 		return "valid request refused: " + res.err.Error()
